@@ -440,6 +440,8 @@ def c04_search(ctx, failing, corr, broken):
             continue
         n, k = v['arg_sizes']
         op = OPNAMES[e['meta']['name']]
+        if (n != k and n != 1 and k != 1) or (n > 1 and k > 1 and op in ('mul', 'div')):
+            continue   # a tensor product (matrix-matrix, matrix-vector), not a component-wise operator
         xs = [Fraction(-m if s else m) * Fraction(2) ** ex for (s, m, ex) in vals]
         outs = num_outs(r)
         if len(outs) != max(n, k):
@@ -450,9 +452,10 @@ def c04_search(ctx, failing, corr, broken):
                 continue
             # operands stored in another format are converted first, as the code does
             infm = co.input_formats(v['tree'], v['n_in'], fmt)
-            want = pyfloat.binop(op, pyfloat.round_to(a, fmt) if True else a, pyfloat.round_to(b, fmt), fmt)
-            if isinstance(pyfloat.round_to(a, fmt), str) or isinstance(pyfloat.round_to(b, fmt), str):
+            ra, rb = pyfloat.round_to(a, fmt), pyfloat.round_to(b, fmt)
+            if isinstance(ra, str) or isinstance(rb, str) or (op == 'div' and rb == 0):
                 continue
+            want = pyfloat.binop(op, ra, rb, fmt)
             wc = want if isinstance(want, str) else co.canon(want)
             if c in ('nan',) or wc.lstrip('-') == '0 0' and c.lstrip('-') == '0 0':
                 continue
@@ -1464,6 +1467,16 @@ def c05_search(ctx, failing, corr, broken, only=None):
                     break
             if len(out) >= 5:
                 return out
+    if broken and only is None and len(out) < 5:
+        # operator spellings of the relations (C04's twins): an operator between quantities that is not the
+        # correctly rounded operation its constructor twin performs
+        for v in c04_search(ctx, {}, None, True) or []:
+            if v.get('kind') == 'c04-op':
+                v = dict(v)
+                v['kind'] = 'c05-operator-spelling'
+                out.append(v)
+            if len(out) >= 5:
+                break
     return out
 
 
@@ -2308,6 +2321,24 @@ def c08_search(ctx, failing, corr, broken):
                 out.append({'kind': 'c08-table-hole', 'unit_type': u['name'], 'enumerator': nm, 'missing_from': missing,
                             'what': 'enumerator %s::%s has no entry in %s: the unchecked find()->second on that table '
                                     'dereferences end() for it' % (u['name'], nm, ', '.join(missing))})
+    # every abbreviation must parse back to its own enumerator (tables dumped from the real objects; confirmed on
+    # the real ParseEnumeration)
+    for u in ctx.tables['units'] + ctx.tables['enums']:
+        names = {val: nm for nm, val in u['enumerators']}
+        spell = {}
+        for sp_, val in u.get('spellings', []):
+            spell.setdefault(sp_, val)
+        for val, ab_ in u['abbreviations']:
+            if spell.get(ab_) != val:
+                lines, rc, err = textio(ctx, ['enum %s %s' % (u['name'], hexs(ab_))])
+                out.append({'kind': 'c08-abbreviation-roundtrip', 'unit_type': u['name'], 'enumerator': names.get(val),
+                            'abbreviation': ab_, 'abbreviation_bytes': ab_.encode('utf-8').hex(),
+                            'real_ParseEnumeration': lines[0] if lines else None,
+                            'table_says': names.get(spell.get(ab_)) if ab_ in spell else None,
+                            'what': 'PhQ::ParseEnumeration<%s>(Abbreviation(%s)) = ParseEnumeration("%s") is %s, not %s: '
+                                    'a printed unit does not parse back' % (
+                                        u['name'], names.get(val), ab_,
+                                        names.get(spell.get(ab_)) if ab_ in spell else 'nothing', names.get(val))})
     for (tname, sp, v, reads, want) in rows:
         sp = bytes(sp, 'utf-8').decode('unicode_escape').encode('latin-1').decode('utf-8') if '\\' in sp else sp
         lines, rc, err = textio(ctx, ['enum %s %s' % (tname, hexs(sp)), 'abbr %s %s' % (tname, v)])
